@@ -238,6 +238,25 @@ def part_kwargs(st):
     return kw
 
 
+# ------------------------------------------------------------------ MIP solver wrapper (observation + fault injection, DESIGN 4.1)
+import mip as _mip
+_ORIG_OPTIMIZE = _mip.Model.optimize
+MIP_CTL = {"nopre": False, "inject": None, "last": None}
+
+
+def _optimize(self, *a, **kw):
+    if MIP_CTL["nopre"]:
+        self.preprocess = 0
+    status = _ORIG_OPTIMIZE(self, *a, **kw)
+    MIP_CTL["last"] = {"status": status.name}
+    if MIP_CTL["inject"]:
+        return getattr(_mip.OptimizationStatus, MIP_CTL["inject"])
+    return status
+
+
+_mip.Model.optimize = _optimize
+
+
 def run_part(st, watchdog=20):
     """st: {alg, vals, k, fmt, o, kp, sw, d, it} -> st + result fields"""
     vals = st["vals"]
@@ -246,6 +265,8 @@ def run_part(st, watchdog=20):
     r = dict(st)
     r.setdefault("o", "diff"); r.setdefault("kp", 0); r.setdefault("d", 0); r.setdefault("it", 0)
     r.setdefault("cfg", "")
+    MIP_CTL["nopre"] = bool(st.get("nopre"))
+    MIP_CTL["inject"] = st.get("inject") or None
     try:
         signal.alarm(watchdog)
         try:
